@@ -103,7 +103,7 @@ def Heap.modV (h : Heap) (r : Nat) (f : Vals → Vals) : Heap :=
 /-- `system.order = <new list>`: the System now holds a fresh list object -/
 def Heap.setOrder (h : Heap) (r : Nat) (o : List Int) : Heap :=
   match h.look r with
-  | some s => { sys := h.sys.set r { v := { s.v with order := o }, orderObj := h.nOrd }, nOrd := h.nOrd + 1 }
+  | some s => { sys := h.sys.set r { s with v := { s.v with order := o }, orderObj := h.nOrd }, nOrd := h.nOrd + 1 }
   | none => h
 
 /-- in-place `system.order[0] = x`: visible through every System holding the same list object.
